@@ -22,7 +22,7 @@ TRUSTED = ["harness/h_C12.cpp + h_C12_app.h + h_C12_node.inc: the application fa
            "apropos table (model), and the Python reference semantics used by the Spec oracle",
            "ocaml/C12/driver.ml pt_of_case: the case's port tree as a TreeApp.pt (names and structure from the tree field, leaf "
            "data from the flat application)",
-           "per-line premise line_reads of C12_roundtrip_tree_real_partial for lines outside C10's goodc fragment (see notes/C12.md stage 5)"]
+           "C10's float text model (FloatFmt.fmt_f / fmt_a = glibc's printf, tied by C10 and, for the saved bodies, by the body= comparison here)"]
 ASSUMPTIONS = ["the application is well formed: defaults inside the declared range, a preset selector has a plain default, "
                "sibling names are prefix-free, float defaults are written as exact decimals, no NaN (a NaN compares unequal to itself, "
                "\"the same state\" is not defined for it; C14 records that a NaN is stored whatever the range)",
@@ -439,9 +439,17 @@ LEVEL_TEXT = ("For every abstract application and state: a line is saved exactly
               "Save/TreeApp.v: parameter leaves, embedded / enumerated / pointer sub-trees of one component, 'enabled by' a toggle of the "
               "parent table; names_ok) every stage is the model of the code that implements it (C12_roundtrip_tree_real_partial): the walk "
               "with the runtime object (C09, C12_walk_stage), the dispatch of every saved line to the tree with the macros' callbacks "
-              "(C04 + C14, C12_dispatch_elem / C12_dispatch_stage), print/scan of the body (C10, C12_body_scans); what remains assumed of a "
-              "stage is per saved line outside C10's goodc fragment (floats, plain option symbols, [..] array lines): line_reads. "
-              "C12_eq_stage_array: the 'a'-header comparison of #N ports.")
+              "(C04 + C14, C12_dispatch_elem / C12_dispatch_stage), print/scan of the body (C10, C12_body_scans).  Since stage 6 NO premise "
+              "about a stage is left (C12_roundtrip_tree_real_lines_partial): every saved line of the class good_line - one value of any "
+              "parameter kind (32-bit int, char, finite float with both zeroes, T/F, string / symbol without NUL) or one array of such "
+              "elements of one type (C10's list-level conditions inside arrays) - is printed by the model (C12_good_line_prints, compression "
+              "on: C12_array_message_prints) and read back whatever follows (C12_good_line_reads); the class is decidable (good_line_b) and "
+              "evaluated on every saved line in the tie, where the saved bytes are also compared with the printer's model.  The side "
+              "conditions on application and state are decidable and evaluated per case (wf_app_b, full_conditions_b, defaults_stable_b, "
+              "msg_ok_b; C13: ranked_b), and states reached by parameter messages satisfy them (C12_reachable_full_conditions).  Excluded and "
+              "generated as findings: +-inf in a float parameter (nonfinite-float), an option number outside the declared range after a symbol "
+              "message (option-outside-range).  C12_eq_stage_array: the 'a'-header comparison of #N ports.")
 LEVEL_NOTE = ("the differential run is against the abstract application; on every save case whose tree is inside TreeApp.v's class the model "
               "driver also evaluates the tree stages (flattening = the case's application, walk_tree = live ports, saved lines dispatched on "
-              "the tree = apply_line) and marks the case when one fails; see notes/C12.md (stage 5) for the remaining premises")
+              "the tree = apply_line) and marks the case when one fails; the fields cls= / cond= of the model's output carry the evaluated "
+              "conditions (counted into input_distribution); see notes/C12.md (stage 6) for the remaining premises")
